@@ -14,7 +14,7 @@
    field  := ident ['>' rename] ':' (ty | '{' desc '}') [':' attrs]
              ty: i=i32 t=String I=Option<i32> T=Option<String>; attrs: s(kip) m(allow_missing)
              d(efault_when_null); '{..}' = #[scylla(flatten)] of a nested struct
-   dbtype := '@' ty  (a native type) | name ':' ty {',' name ':' ty} | '-'     ty: i=int t=text b=bigint
+   dbtype := '@' ty  (a native type) | name ':' ty {',' name ':' ty} | '-'     ty: i=int t=text a=ascii b=bigint
    vals / cells := cell {',' cell} | '-'       cell: N (null) | _ (empty payload) | hex *)
 
 let s2c = chars_of_string
@@ -74,7 +74,7 @@ let rty_of = function
   | 'i' -> RInt | 't' -> RText | 'I' -> ROptInt | 'T' -> ROptText
   | c -> failwith ("bad field type " ^ String.make 1 c)
 let dty_of = function
-  | "i" -> DInt | "t" -> DText | "b" -> DBigInt | s -> failwith ("bad db type " ^ s)
+  | "i" -> DInt | "t" -> DText | "b" -> DBigInt | "a" -> DAscii | s -> failwith ("bad db type " ^ s)
 
 let cell_of (s : string) : cell =
   if s = "N" then None else if s = "_" then Some [] else Some (bytes_of_hexstr s)
